@@ -127,20 +127,23 @@ def _tree(args: argparse.Namespace):
                     analysis_toml["codebase"]["exclude"] + args.excludes
                 )
 
+        # An analysis file may define no platform at all.
+        platform_toml = analysis_toml.get("platform", {})
+
         for name in args.platforms:
-            if name not in analysis_toml["platform"].keys():
+            if name not in platform_toml.keys():
                 raise KeyError(
                     f"Platform {name} requested on the command line "
                     + "does not exist in the configuration file.",
                 )
 
         cmd_platforms = args.platforms.copy()
-        for name in analysis_toml["platform"].keys():
+        for name in platform_toml.keys():
             if cmd_platforms and name not in cmd_platforms:
                 continue
-            if "commands" not in analysis_toml["platform"][name]:
+            if "commands" not in platform_toml[name]:
                 raise ValueError(f"Missing 'commands' for platform {name}")
-            p = analysis_toml["platform"][name]["commands"]
+            p = platform_toml[name]["commands"]
             db = config.load_database(p, rootdir)
             args.platforms.append(name)
             configuration.update({name: db})
